@@ -219,6 +219,7 @@ def binary_ops():
           ('collapse_md', 'sample'), ('collapse_md', 'observation'),
           ('partition', 'sample', 0), ('partition', 'observation', 0),
           ('partition', 'sample', 1), ('partition', 'observation', 1),
+          ('partition_re', 'sample', 0), ('partition_re', 'observation', 0),
           ('align',), ('subs_id', 'sample'), ('subs_id', 'observation'),
           ('subs_id1', 'sample'), ('subs_id1', 'observation'),
           ('subs', 'sample', 2, 0), ('subs', 'observation', 2, 1), ('subs', 'sample', 1, 2),
@@ -534,6 +535,17 @@ def apply(op, t, m, strict=True):
             raise Refuse()
         lab = (lambda i, md: str(_mdval(md)))
         return Res(t.collapse(lab, axis=ax), X(lambda: m.collapse(ax, lab, norm=True)), False)
+    if n == 'partition_re':
+        # the first part, with the vectors that are empty in it removed
+        ax = op[1]
+        if strict and not m.ids(ax):
+            raise Refuse()
+        labf = (lambda i, md: i[-1])
+        parts = list(t.partition(labf, axis=ax, remove_empty=True))
+        g = m.groups(ax, labf)
+        if not parts:
+            raise Refuse()
+        return Res(parts[0][1], X(lambda: m.filter_idx(ax, g[list(g)[0]]).remove_empty('whole')), False)
     if n == 'partition':
         ax, which = op[1], op[2]
         if strict and not m.ids(ax):
